@@ -554,11 +554,8 @@ class Scope:
 NONUNIQUE_MARKERS = ("__qualname__", "__name__", "__module__", ".stem", ".name", "fn_name")
 
 
-def memo_tables(mod: "ModuleInfo"):
-    """Module-level mutable containers that functions of the module write into (memo caches, registries).
-
-    Yields (table name, function qualname, key expression text expanded through local definitions, store node).
-    """
+def module_tables(mod: "ModuleInfo") -> set[str]:
+    """Names of module-level containers that start empty (memo caches, registries)."""
     tables = set()
     for n in mod.tree.body:
         tgt = None
@@ -570,6 +567,15 @@ def memo_tables(mod: "ModuleInfo"):
         if tgt and (isinstance(val, (ast.Dict, ast.List, ast.Set)) and not getattr(val, "keys", getattr(val, "elts", [])) or
                     (isinstance(val, ast.Call) and norm(val.func) in ("dict", "list", "set", "defaultdict", "collections.defaultdict", "OrderedDict", "WeakValueDictionary", "weakref.WeakValueDictionary"))):
             tables.add(tgt)
+    return tables
+
+
+def memo_tables(mod: "ModuleInfo"):
+    """Module-level mutable containers that functions of the module write into (memo caches, registries).
+
+    Yields (table name, function qualname, key expression text expanded through local definitions, store node).
+    """
+    tables = module_tables(mod)
     for qual, fn in mod.functions.items():
         defs = {}
         for s in walk_no_nested(fn):
@@ -800,3 +806,69 @@ def expand_locals(e: ast.AST, defs: dict[str, ast.AST], depth: int = 3) -> ast.A
             break
         cur = _Subst({k: defs[k] for k in names}).visit(cur)
     return cur
+
+
+NARY_AST_FIELDS = ("values", "ops", "comparators", "args", "keywords", "elts", "targets")
+
+
+def nary_index_problems(fn: ast.FunctionDef, mod: "ModuleInfo | None" = None) -> tuple[list[tuple[ast.Subscript, str]], list[tuple[ast.Subscript, str]]]:
+    """Constant-index reads `x.<field>[k]` of list-valued fields of Python AST nodes (BoolOp.values, Compare.ops / comparators,
+    Call.args / keywords, Tuple.elts, Assign.targets) in a converter function -> (unguarded, guarded).
+
+    A read is guarded when the same function tests `len(x.<field>)` in a condition with a leaving branch (raise / return) or in an
+    assert, tests the field for emptiness the same way, or uses the head/tail idiom (`x.f[0]` together with iteration over `x.f[1:]`).
+    With `mod`, a read also counts as guarded when the function has, on an earlier line, called a function of the module that refuses
+    (raises on) a length of the same field - the statement walker that every statement passes through before a fallback looks at it.
+    An unguarded read means that the elements behind the index are dropped without the conversion failing."""
+    defs = single_defs(fn, anywhere=True)
+    reads = []
+    for n in walk_no_nested(fn):
+        if isinstance(n, ast.Subscript) and isinstance(n.slice, (ast.Constant, ast.UnaryOp)) and not isinstance(n.ctx, ast.Store):
+            if isinstance(n.slice, ast.UnaryOp) and not isinstance(n.slice.operand, ast.Constant):
+                continue
+            base = expand_locals(n.value, defs, depth=3)
+            if isinstance(base, ast.Attribute) and base.attr in NARY_AST_FIELDS:
+                reads.append((n, norm(base)))
+    if not reads:
+        return [], []
+    guarded_fields = set()
+    for n in walk_no_nested(fn):
+        tests = []
+        if isinstance(n, ast.If):
+            leaves = any(isinstance(x, (ast.Raise, ast.Return)) for s in n.body + n.orelse for x in ast.walk(s))
+            if leaves:
+                tests.append(n.test)
+        elif isinstance(n, ast.Assert):
+            tests.append(n.test)
+        elif isinstance(n, ast.IfExp):
+            tests.append(n.test)
+        elif isinstance(n, ast.match_case) and n.guard is not None:
+            tests.append(n.guard)
+        for t in tests:
+            t = expand_locals(t, defs, depth=3)
+            for c in ast.walk(t):
+                if isinstance(c, ast.Call) and norm(c.func) == "len" and c.args:
+                    guarded_fields.add(norm(expand_locals(c.args[0], defs, depth=3)))
+        # head / tail idiom
+        if isinstance(n, (ast.For, ast.comprehension)):
+            it = expand_locals(n.iter, defs, depth=3)
+            for s in ast.walk(it):
+                if isinstance(s, ast.Subscript) and isinstance(s.slice, ast.Slice) and s.slice.upper is None and s.slice.lower is not None:
+                    guarded_fields.add(norm(s.value))
+    earlier_guards: list[tuple[int, str]] = []  # (line of the call, field attribute refused by the callee)
+    if mod is not None:
+        for c in walk_no_nested(fn):
+            if isinstance(c, ast.Call) and isinstance(c.func, ast.Name) and c.func.id in mod.functions and mod.functions[c.func.id] is not fn:
+                g = mod.functions[c.func.id]
+                for i in walk_no_nested(g):
+                    if isinstance(i, ast.If) and any(isinstance(x, ast.Raise) for s_ in i.body for x in ast.walk(s_)):
+                        for l in ast.walk(i.test):
+                            if isinstance(l, ast.Call) and norm(l.func) == "len" and l.args and isinstance(l.args[0], ast.Attribute):
+                                earlier_guards.append((c.lineno, l.args[0].attr))
+
+    def ok(n, f):
+        return f in guarded_fields or any(line < n.lineno and f.endswith("." + attr) for line, attr in earlier_guards)
+
+    bad = [(n, f) for n, f in reads if not ok(n, f)]
+    good = [(n, f) for n, f in reads if ok(n, f)]
+    return bad, good
